@@ -423,6 +423,141 @@ fn run_case_with(c: &Case, avoid_a: bool, avoid_g: bool) -> CaseResult {
         .class_if(issued.iter().any(|i| i.target >= 3), "undialable-or-addressless-target"))
 }
 
+// ---------------------------------------------------------------------------------------------
+// the bound on concurrent inbound requests, with several requesting peers at once
+
+#[derive(Debug, Clone, Serialize, Deserialize)]
+pub struct BoundCase {
+    pub requesters: u8,
+    pub max_inbound: u8,
+    /// (requester, pause before it in ms (0 = same tick), behaviour 0 answer / 2 never / 3 answer after `delay`, delay ms, request length)
+    pub volley: Vec<(u8, u8, u8, u16, u16)>,
+    pub seed: u64,
+}
+
+fn bound_strategy() -> impl Strategy<Value = BoundCase> {
+    (
+        2u8..5,
+        1u8..4,
+        prop::collection::vec(
+            (0u8..4, prop_oneof![6 => Just(0u8), 1 => 1u8..4, 1 => 20u8..90], prop_oneof![1 => Just(0u8), 1 => Just(2u8), 4 => Just(3u8)], prop_oneof![Just(60u16), Just(150), Just(300)], prop_oneof![4 => 15u16..64, 1 => 2000u16..20000]),
+            2..14,
+        ),
+        any::<u64>(),
+    )
+        .prop_map(|(requesters, max_inbound, volley, seed)| BoundCase { requesters, max_inbound, volley, seed })
+}
+
+fn run_bound(c: &BoundCase) -> CaseResult {
+    let log: Log = Arc::new(parking_lot::Mutex::new(Vec::new()));
+    let timeout = Duration::from_millis(500);
+    let base = NodeSetup {
+        connection_open_timeout: Some(Duration::from_millis(1000)),
+        substream_open_timeout: Some(Duration::from_millis(1000)),
+        keep_alive: Some(Duration::from_secs(10)),
+        ..Default::default()
+    };
+    let n_req = c.requesters.clamp(2, 4) as usize;
+    let mut nodes: Vec<Node> = Vec::new();
+    nodes.push(
+        Node::spawn(
+            0,
+            NodeSetup { seed: c.seed % 1000 + 30_000, rr: Some(RrSetup { timeout, max_size: MAX_SIZE, max_concurrent_inbound: Some(c.max_inbound as usize) }), ..base.clone() },
+            log.clone(),
+        )
+        .map_err(|e| CaseFail::new("C13/harness-node-start-failed", e))?,
+    );
+    let responder = nodes[0].peer;
+    let addr = full_address(&nodes[0]);
+    for i in 0..n_req {
+        let node = Node::spawn(
+            i + 1,
+            NodeSetup { seed: c.seed % 1000 + 30_010 + i as u64, rr: Some(RrSetup { timeout, max_size: MAX_SIZE, max_concurrent_inbound: None }), ..base.clone() },
+            log.clone(),
+        )
+        .map_err(|e| CaseFail::new("C13/harness-node-start-failed", e))?;
+        node.send(Cmd::DialAddress(addr.clone()));
+        nodes.push(node);
+    }
+    let all_connected = wait_until(&log, Duration::from_secs(5), |l| {
+        (1..=n_req).all(|n| l.iter().any(|o| o.node == n && matches!(&o.kind, ObsKind::ConnEstablished { peer, .. } if *peer == responder)))
+            && l.iter().filter(|o| o.node == 0 && matches!(&o.kind, ObsKind::ConnEstablished { .. })).count() >= n_req
+    });
+    if !all_connected {
+        return Err(CaseFail::new("C13/harness-calibration-failed", "requesters could not connect to the responder within 5 s"));
+    }
+    std::thread::sleep(Duration::from_millis(20));
+    let mut issued: Vec<(usize, Vec<u8>)> = Vec::new(); // (requester node, request)
+    for (k, (r, gap, behaviour, delay, len)) in c.volley.iter().enumerate() {
+        if *gap > 0 {
+            std::thread::sleep(Duration::from_millis(*gap as u64));
+        }
+        let n = (*r as usize % n_req) + 1;
+        let nonce = c.seed.wrapping_mul(131).wrapping_add(k as u64);
+        let request = rr_request(nonce, *behaviour, *delay, 40, (*len as usize).max(15));
+        nodes[n].send(Cmd::RrSend { peer: responder, payload: request.clone(), dial: false });
+        issued.push((n, request));
+    }
+    // every request ends (response, rejection or timeout) well within 3 s
+    let total = issued.len();
+    let done = wait_until(&log, Duration::from_secs(4), |l| {
+        l.iter().filter(|o| o.node >= 1 && matches!(&o.kind, ObsKind::RrResponse { .. } | ObsKind::RrFailed { .. } | ObsKind::RrSendError { .. })).count() >= total
+    });
+    std::thread::sleep(Duration::from_millis(80));
+    let history: Vec<Obs> = log.lock().clone();
+    drop(nodes);
+
+    // each requester: one terminal event per request id
+    for n in 1..=n_req {
+        let sent: Vec<usize> = history.iter().filter(|o| o.node == n).filter_map(|o| if let ObsKind::RrSent { id, .. } = &o.kind { Some(*id) } else { None }).collect();
+        for id in sent {
+            let t = history.iter().filter(|o| o.node == n && matches!(&o.kind, ObsKind::RrResponse { id: i, .. } | ObsKind::RrFailed { id: i, .. } if *i == id)).count();
+            ensure!(t <= 1, "C13/more-than-one-terminal-event", "requester {n} request id {id}: {t} terminal events");
+            ensure!(t == 1 || !done, "C13/request-without-terminal-event", "requester {n} request id {id}");
+            ensure!(t == 1, "C13/request-without-terminal-event", "requester {n} request id {id}: nothing 4 s after the volley (request timeout 500 ms)");
+        }
+    }
+    // the responder: each request at most once, never more than the bound outstanding
+    let mut seen: BTreeMap<Vec<u8>, usize> = BTreeMap::new();
+    let mut outstanding: BTreeSet<usize> = BTreeSet::new();
+    let mut peak = 0usize;
+    let mut received = 0usize;
+    for o in history.iter().filter(|o| o.node == 0) {
+        match &o.kind {
+            ObsKind::RrRequestReceived { id, request, .. } => {
+                received += 1;
+                *seen.entry(request.clone()).or_default() += 1;
+                ensure!(issued.iter().any(|(_, r)| r == request), "C13/responder-received-request-nobody-sent", "{} bytes", request.len());
+                outstanding.insert(*id);
+                peak = peak.max(outstanding.len());
+                ensure!(
+                    outstanding.len() <= c.max_inbound as usize,
+                    "C13/inbound-request-bound-exceeded",
+                    "{} requests from {} peers are outstanding at the responder's user with a bound of {}",
+                    outstanding.len(),
+                    n_req,
+                    c.max_inbound
+                );
+            }
+            ObsKind::RrAnswered { id, .. } | ObsKind::RrRejected { id } => {
+                outstanding.remove(id);
+            }
+            _ => {}
+        }
+    }
+    for (r, k) in &seen {
+        ensure!(*k == 1, "C13/responder-saw-request-twice", "a request of {} bytes was delivered {k} times", r.len());
+    }
+    let rejected = history.iter().filter(|o| o.node >= 1 && matches!(&o.kind, ObsKind::RrFailed { .. })).count();
+    let same_tick = c.volley.iter().skip(1).filter(|v| v.1 == 0).count();
+    Ok(CaseOk::trivial()
+        .nt(total > c.max_inbound as usize && same_tick >= 1)
+        .class_if(peak == c.max_inbound as usize, "bound-reached")
+        .class_if(rejected > 0, "some-request-refused-or-timed-out")
+        .class_if(received == total, "all-requests-admitted")
+        .class_if(same_tick + 1 > c.max_inbound as usize, "simultaneous-volley-larger-than-bound"))
+}
+
 fn short(k: &ObsKind) -> String {
     let s = format!("{k:?}");
     s.chars().take(100).collect()
@@ -434,7 +569,9 @@ pub fn run(ctx: &mut Ctx) {
         size / reject / never answer / answer late), cancellation 0..40 ms after issuing, responder killed at a generated moment, inbound bound in {none,1,3}, request timeout \
         300/500 ms. Ledger by RequestId: at most one terminal event, exactly one unless cancelled within 2.5 s + 3 timeouts, response byte-identical to what the responder supplied \
         for that request, responder sees each request once, inbound bound respected. Non-trivial = >= 2 requests to one peer while it is not yet connected, or a fault/failure \
-        outcome; distinct by case hash."
+        outcome; distinct by case hash. Second campaign (inbound-bound): one responder with a bound of 1..3 and 2..4 connected requesters firing 2..13 requests (same tick or 1..90 ms \
+        apart; answered at once / after 60..300 ms / never; 15 B .. 20 kB): per requester exactly one terminal event per request, at the responder never more requests outstanding at \
+        the user than the bound, each request delivered at most once; non-trivial = more requests than the bound with at least two in the same tick."
         .into();
     ctx.assumptions = vec![
         "thread and socket schedules are sampled (OS + tokio), not owned; the oracle accepts every legal outcome, so a violation is an observed behaviour of the real code".into(),
@@ -445,4 +582,5 @@ pub fn run(ctx: &mut Ctx) {
     let avoid = ctx.avoid(SIG_A) && ctx.is_generate();
     let avoid_g = ctx.avoid(SIG_G) && ctx.is_generate();
     ctx.campaign("histories", CampaignCfg::new(t.pick(1_600, 30_000)).shards(16).shrink_iters(8), strategy, move |c: &Case| run_case_with(c, avoid, avoid_g));
+    ctx.campaign("inbound-bound", CampaignCfg::new(t.pick(480, 10_000)).shards(16).shrink_iters(8), bound_strategy, run_bound);
 }
